@@ -28,6 +28,7 @@ FIXTURE = [
     _e("DE", "70000000", "JJJJDEFF", primary=False), _e("DE", "70000000", "KKKKDEFF", primary=True), _e("DE", "70000000", "LLLLDEFFXXX", primary=True),
     _e("DE", "", "MMMMDEFF"), _e("NL", "ABNA", "ABNANL2A"), _e("NL", "ABNA", "ABNANL2AXXX", primary=False),
     _e("DE", "80000000", "MARKDEF1100", name="Zweite", short="Z"),
+    _e("DE", "00000000", "NULLDEFF", name="Zero code"), _e("BE", "000", "ZEROBEBB", name="Zero BE"),
 ]
 
 
@@ -273,7 +274,9 @@ def run(ctx, report):
         rnd = random.Random(7919 * (ctx.seed + 1))
         keys_b = sorted(set(rnd.sample(multi, min(60, len(multi))) + rnd.sample(allkeys, min(150, len(allkeys)))))
         bics_b = rnd.sample(allbics, min(60, len(allbics)))
-    keys_b += [("DE", "00000000"), ("GB", "ZZZZ")]
+    # bank codes that are all zeros are ordinary codes (five of them are listed): always included
+    keys_b = sorted(set(keys_b) | {k for k in allkeys if set(k[1]) == {"0"}})
+    keys_b += [("DE", "00000001"), ("GB", "ZZZZ")]
     check_registry(ctx, report, hb, keys_b, bics_b, "bundled", r_c, r_s, r_i, r_b)
     report.analysed = {"synthetic_entries": len(FIXTURE), "bundled_keys_checked": len(keys_b), "bundled_keys_total": len(allkeys),
                        "bundled_bics_checked": len(bics_b), "bundled_bics_total": len(allbics), "exhaustive_over_bundled_data": ctx.tier == "thorough"}
